@@ -78,6 +78,7 @@ fn main() -> ExitCode {
                     scenarios: 0,
                     max_single_faults: 0,
                     multi_fault_plans: 0,
+                    kill_plans: 0,
                     layouts_per_scenario: 1,
                     threads: 1,
                     wall_limit_s: 100,
@@ -207,6 +208,13 @@ fn cmd_check(args: &[String]) -> i32 {
         scenarios: ((if quick { scen_q } else { scen_t }) as f64 * scale) as usize,
         max_single_faults: if quick { 30 } else { 120 },
         multi_fault_plans: if quick { 4 } else { 16 },
+        // crash points only make a difference where a store survives the run
+        kill_plans: match (id, quick) {
+            ("C18", true) => 4,
+            ("C18", false) => 12,
+            (_, true) => 1,
+            (_, false) => 3,
+        },
         layouts_per_scenario: if id == "C11" { 3 } else { 1 },
         threads,
         wall_limit_s: if quick { 100 } else { 1500 },
